@@ -569,7 +569,14 @@ type ImmutableDef struct {
 	Pkg  string
 }
 
+// TypeInvDef: a representation invariant of a struct type (`typeinv T: expr over self.f`), see typeinv.go
+type TypeInvDef struct {
+	Type, Text, Pkg, Pos string
+	Expr                 SExpr
+}
+
 type SpecFile struct {
+	TypeInvs   []*TypeInvDef
 	Immutables []ImmutableDef
 	Path       string
 	Pkg        string
@@ -580,7 +587,7 @@ type SpecFile struct {
 	Lemmas     []*Lemma
 }
 
-var keywordRe = regexp.MustCompile(`^(package|func|interface|requires|ensures|assigns|invariant|decreases|loop|pure|pred|axiom|ghost|nopanic|let|letold|reads|trusted|callback|cb_requires|cb_ensures|cb_assigns|cb_pure|inline|opaque|modifies|implements|lemma|call|assert|probe|uses|records|witness|forget|checks|havocs|reveal|immutable|ensures_trusted|frames|frame_trusted)\b`)
+var keywordRe = regexp.MustCompile(`^(package|func|interface|requires|ensures|assigns|invariant|decreases|loop|pure|pred|axiom|ghost|nopanic|let|letold|reads|trusted|callback|cb_requires|cb_ensures|cb_assigns|cb_pure|inline|opaque|modifies|implements|lemma|call|assert|probe|uses|records|witness|forget|checks|havocs|reveal|immutable|ensures_trusted|frames|frame_trusted|typeinv)\b`)
 
 var labelRe = regexp.MustCompile(`^\[([A-Za-z0-9_./-]+)\]\s*`)
 
@@ -910,6 +917,16 @@ func ParseSpecFile(path string, data []byte, defaultPkg string) (*SpecFile, erro
 				return nil, fmt.Errorf("%s:%d: %v", path, s.line, err)
 			}
 			sf.Axioms = append(sf.Axioms, &AxiomDef{Name: strings.TrimSpace(s.text[:i]), Expr: e, Text: s.text[i+1:], Pkg: sf.Pkg, Pos: fmt.Sprintf("%s:%d", path, s.line)})
+		case "typeinv":
+			i := strings.Index(s.text, ":")
+			if i < 0 {
+				return nil, fmt.Errorf("%s:%d: typeinv needs `Type: expr`", path, s.line)
+			}
+			e, err := ParseSpecExpr(s.text[i+1:])
+			if err != nil {
+				return nil, fmt.Errorf("%s:%d: %v", path, s.line, err)
+			}
+			sf.TypeInvs = append(sf.TypeInvs, &TypeInvDef{Type: strings.TrimSpace(s.text[:i]), Expr: e, Text: strings.TrimSpace(s.text[i+1:]), Pkg: sf.Pkg, Pos: fmt.Sprintf("%s:%d", path, s.line)})
 		case "immutable":
 			for _, part := range splitTop(s.text, ',') {
 				if part = strings.TrimSpace(part); part != "" {
